@@ -244,7 +244,7 @@ theorem insertRealloc_spec (pre post : List α) (v : α) (l : Led) :
   have el : (mk (pre ++ post) (pre ++ post).length l).led = l := rfl
   have hb : bufOf (pre ++ post) 0 = [] ++ pre.map some ++ (post.map some ++ []) := by simp [bufOf]
   have hr : (raw (pre.length + post.length + 1) : Buf α) = [] ++ raw pre.length ++ raw (post.length + 1) := by
-    rw [List.nil_append, ← raw_add]; congr 1; omega
+    rw [List.nil_append, ← raw_add, Nat.add_assoc]
   have m1 := moveLoop_spec 0 pre [] (post.map some ++ []) [] (raw (post.length + 1)) 0 l rfl rfl
   have hr2 : ([] : Buf α) ++ pre.map some ++ raw (post.length + 1)
       = pre.map some ++ none :: raw post.length := by simp [raw_succ]
@@ -266,9 +266,10 @@ theorem insertRealloc_spec (pre post : List α) (v : α) (l : Led) :
   have e1 : pre.length + post.length + 1 - (pre.length + (post.length + 1)) = 0 := by omega
   simp only [e1, raw_zero, List.append_nil, List.map_append, List.map_cons, List.append_assoc,
     List.cons_append, List.nil_append]
-  congr 2
-  · omega
-  · simp only [Led.mk.injEq]; omega
+  have a1 : pre.length + (post.length + 1) = pre.length + post.length + 1 := by omega
+  have a2 : l.ctor + pre.length + 1 + post.length = l.ctor + (pre.length + post.length) + 1 := by omega
+  have a3 : l.dtor + pre.length + post.length = l.dtor + (pre.length + post.length) := by omega
+  rw [a1, a2, a3]
 
 theorem insertShift_spec (pre post : List α) (v : α) (m : Nat) (l : Led) (hne : post ≠ [])
     (hm : (pre ++ post).length + 1 ≤ m) :
@@ -306,7 +307,7 @@ theorem insertShift_spec (pre post : List α) (v : α) (m : Nat) (l : Led) (hne 
     simp
   unfold insertShift
   simp only [en, el]
-  rw [hb, bRead_mid _ _ _ _ (by simp [hdlen])]
+  rw [hb, bRead_mid _ _ _ _ (by simp; omega)]
   simp only [ok_bind]
   rw [hb2, bConstruct_mid _ _ _ _ _ (by simp; omega)]
   simp only [ok_bind]
@@ -316,9 +317,7 @@ theorem insertShift_spec (pre post : List α) (v : α) (m : Nat) (l : Led) (hne 
   simp only [ok_bind, mk, bufOf, List.length_append, List.length_cons, List.map_append, List.map_cons,
     List.append_assoc, List.cons_append]
   have : m - (pre.length + (post.length + 1)) = k := by omega
-  rw [this]
-  congr 2
-  omega
+  rw [this, Nat.add_assoc]
 
 theorem insertObjectAt_ok {s : Cs α} {vs : List α} (h : WF s vs) (i : Nat) (v : α) (h1 : 0 < i) (h2 : i ≤ vs.length + 1) :
     ∃ s', insertObjectAt s i v = .ok s' ∧ WF s' (vs.take (i - 1) ++ v :: vs.drop (i - 1)) ∧
@@ -347,11 +346,17 @@ theorem insertObjectAt_ok {s : Cs α} {vs : List α} (h : WF s vs) (i : Nat) (v 
     by_cases hgrow : (pre ++ post).length + 1 > m
     · have hm : m = (pre ++ post).length := by omega
       subst hm
-      refine ⟨_, ?_, wf_mk (pre ++ v :: post) ((pre ++ post).length + 1) _ (by simp; omega) (by omega), ?_⟩
-      · simp only [insertObjectAt, hg, if_false, en, em, hgrow, if_true, eo, ← hpl, Nat.sub_self]
+      refine ⟨mk (pre ++ v :: post) ((pre ++ post).length + 1)
+          { ctor := l.ctor + (pre ++ post).length + 1, dtor := l.dtor + (pre ++ post).length }, ?_,
+        wf_mk (pre ++ v :: post) ((pre ++ post).length + 1) _ (by simp; omega) (by omega), ?_⟩
+      · unfold insertObjectAt
+        rw [if_neg hg]
+        simp only [en, em, hgrow, if_true, eo, ← hpl, Nat.sub_self]
         exact insertRealloc_spec pre post v l
       · simp [Bal, mk]; omega
-    · simp only [insertObjectAt, hg, if_false, en, em, hgrow, onBuf_mk, ok_bind, el, ← hpl]
+    · unfold insertObjectAt
+      rw [if_neg hg]
+      simp only [en, em, hgrow, if_false, onBuf_mk, ok_bind, el, ← hpl]
       by_cases hend : pre.length = (pre ++ post).length
       · have hpost0 : post = [] := by
           have : post.length = 0 := by omega
@@ -365,7 +370,8 @@ theorem insertObjectAt_ok {s : Cs α} {vs : List α} (h : WF s vs) (i : Nat) (v 
         simp [mk]
       · have hne : post ≠ [] := by
           intro e; subst e; simp at hend
-        refine ⟨_, ?_, wf_mk (pre ++ v :: post) m _ (by simp; omega) hpos, by simp [Bal, mk]; omega⟩
+        refine ⟨mk (pre ++ v :: post) m { l with ctor := l.ctor + 1 }, ?_,
+          wf_mk (pre ++ v :: post) m _ (by simp; omega) hpos, by simp [Bal, mk]; omega⟩
         simp only [hend, if_false]
         exact insertShift_spec pre post v m l hne (by omega)
 
